@@ -122,8 +122,6 @@ Definition fwd_ok (r : oprow) : bool :=
 Lemma fwd_ok_all : forallb fwd_ok (op_rows ++ layer_rows) = true.
 Proof. vm_compute. reflexivity. Qed.
 
-Definition in_dtypes (ds : list dtype) (s : list absval) : bool :=
-  forallb (fun v => match v with Np d _ => existsb (dtype_eqb d) ds | _ => false end) s.
 
 Definition mixed_ok (r : oprow) : bool :=
   forallb (fun d => forallb (fun d2 => in_dtypes [d; join d d2] (op_result gen_cfg d d2 r)) fdts) fdts.
@@ -131,7 +129,6 @@ Definition mixed_ok (r : oprow) : bool :=
 Lemma mixed_ok_all : forallb mixed_ok (op_rows ++ layer_rows) = true.
 Proof. vm_compute. reflexivity. Qed.
 
-Definition accs_in_place (r : oprow) : bool := forallb (fun a => snd a) (op_accs r).
 
 Lemma accs_in_place_all : forallb accs_in_place wrapper_rows = true.
 Proof. vm_compute. reflexivity. Qed.
@@ -143,6 +140,13 @@ Definition acc_castable (r : oprow) : bool :=
   (seq 0 (List.length (op_accs r))).
 
 Lemma acc_castable_all : forallb acc_castable wrapper_rows = true.
+Proof. vm_compute. reflexivity. Qed.
+
+(* float16 as a probe: an op / parameter-free layer that silently creates a default-dtype (float32) temporary
+   (Tensor(2.0), synapgrad.tensor(mask) ...) turns float16 operands into float32 *)
+Definition probe_ok (r : oprow) : bool := all_dtype F16 (op_result gen_cfg F16 F16 r).
+
+Lemma probe_ok_all : forallb probe_ok (wrapper_rows ++ param_free_layer_rows) = true.
 Proof. vm_compute. reflexivity. Qed.
 
 Lemma forallb_In {A} (f : A -> bool) (l : list A) : forallb f l = true -> forall x, In x l -> f x = true.
